@@ -650,3 +650,117 @@ pub fn cache_race(seed: u64, idx: u64) -> Case {
         desc: Json::obj().with("engine", "c16_cache_race").with("seed", seed).with("index", idx).with("config", config_desc).with("log", log.iter().map(|s| Json::from(s.as_str())).collect::<Vec<_>>()),
     }
 }
+
+/// A registry-wide `clear()` on a second OS thread against `Object::take()`. Once `take()` has returned, the
+/// taken client's cache belongs to the caller: a `clear()` that overlaps the take may have emptied it before
+/// the take returned, or not at all - it cannot empty it afterwards. (size right after take) == (size after
+/// the overlapping clear has finished).
+pub fn registry_race(seed: u64, idx: u64) -> Case {
+    let mut rng = Rng::derive(seed, 0xC16B, idx);
+    let clients = rng.range(3, 10) as usize;
+    let trials = 30usize;
+    let config_desc = format!("registry race: clients={} trials={}", clients, trials);
+    let rt = tokio::runtime::Builder::new_current_thread().enable_all().build().expect("rt");
+    let mut viol: Vec<Violation> = Vec::new();
+    let mut log: Vec<String> = vec![config_desc.clone()];
+    let mut counters: BTreeMap<String, u64> = BTreeMap::new();
+    rt.block_on(async {
+        let server = Arc::new(ServerState::default());
+        let finished: Arc<Mutex<HashMap<usize, Arc<AtomicBool>>>> = Arc::new(Mutex::new(HashMap::new()));
+        let mut pgc = tokio_postgres::Config::new();
+        let _ = pgc.user("u").dbname("d");
+        let mgr = Manager::from_connect(pgc, VConnect { server: server.clone(), finished: finished.clone(), linger: false }, ManagerConfig { recycling_method: RecyclingMethod::Fast });
+        let pool: Pool = Pool::builder(mgr).max_size(clients + 1).build().expect("build");
+        let cat: Vec<(String, Vec<Type>)> = catalogue().into_iter().filter(|(q, _)| !q.contains("syntax_error")).collect();
+        // the bystanders: registered first, with full caches (they make the sweep take a while)
+        let mut others = Vec::new();
+        for _ in 0..clients {
+            match tokio::time::timeout(Duration::from_secs(10), pool.get()).await {
+                Ok(Ok(c)) => others.push(c),
+                _ => {
+                    viol.push(Violation { prop: "C16", oracle: "harness", msg: "no client".into() });
+                    return;
+                }
+            }
+        }
+        let go = Arc::new(std::sync::atomic::AtomicU64::new(0));
+        let done = Arc::new(std::sync::atomic::AtomicU64::new(0));
+        let stop = Arc::new(AtomicBool::new(false));
+        let clearer = {
+            let (go, done, stop, p2) = (go.clone(), done.clone(), stop.clone(), pool.clone());
+            std::thread::spawn(move || {
+                let mut seen = 0;
+                while !stop.load(Ordering::SeqCst) {
+                    let g = go.load(Ordering::SeqCst);
+                    if g > seen {
+                        seen = g;
+                        p2.manager().statement_caches.clear();
+                        done.store(g, Ordering::SeqCst);
+                    } else {
+                        std::hint::spin_loop();
+                    }
+                }
+            })
+        };
+        let mut emptied_after_take = 0u64;
+        let mut cleared_before_take = 0u64;
+        for trial in 0..trials {
+            // fill every cache again
+            for c in &others {
+                for (q, types) in &cat {
+                    let _ = tokio::time::timeout(Duration::from_secs(10), c.prepare_typed_cached(q, types)).await;
+                }
+            }
+            let victim = match tokio::time::timeout(Duration::from_secs(10), pool.get()).await {
+                Ok(Ok(c)) => c,
+                _ => break,
+            };
+            for (q, types) in cat.iter().take(3) {
+                let _ = tokio::time::timeout(Duration::from_secs(10), victim.prepare_typed_cached(q, types)).await;
+            }
+            let before = victim.statement_cache.size();
+            // one clear() starts now; the take lands somewhere inside it
+            let ticket = trial as u64 + 1;
+            go.store(ticket, Ordering::SeqCst);
+            let spin = rng.below(4000);
+            for _ in 0..spin {
+                std::hint::spin_loop();
+            }
+            let taken = deadpool_postgres::Client::take(victim);
+            let s1 = taken.statement_cache.size();
+            let t0 = std::time::Instant::now();
+            while done.load(Ordering::SeqCst) < ticket && t0.elapsed() < Duration::from_secs(10) {
+                std::hint::spin_loop();
+            }
+            let s2 = taken.statement_cache.size();
+            if s1 == 0 && before > 0 {
+                cleared_before_take += 1;
+            }
+            if s2 != s1 {
+                emptied_after_take += 1;
+                if viol.is_empty() {
+                    viol.push(Violation { prop: "C16", oracle: "registry_touched_taken_client", msg: format!("trial {}: the taken client's cache held {} statements when take() returned and {} after the overlapping statement_caches.clear() had finished", trial, s1, s2) });
+                }
+            }
+            drop(taken);
+        }
+        stop.store(true, Ordering::SeqCst);
+        let _ = clearer.join();
+        let _ = counters.insert("registry_race_trials".into(), trials as u64);
+        let _ = counters.insert("clear_won_the_race".into(), cleared_before_take);
+        log.push(format!("{} trials, clear() emptied the victim before the take in {}, after it in {}", trials, cleared_before_take, emptied_after_take));
+        drop(others);
+        drop(pool);
+    });
+    let mut h = Hasher::default();
+    h.str(&config_desc);
+    h.u64(idx);
+    Case {
+        violations: viol,
+        hash: h.0,
+        nontrivial: true,
+        events: counters.values().sum(),
+        counters,
+        desc: Json::obj().with("engine", "c16_registry_race").with("seed", seed).with("index", idx).with("config", config_desc).with("log", log.iter().map(|s| Json::from(s.as_str())).collect::<Vec<_>>()),
+    }
+}
